@@ -27,11 +27,11 @@ Sels == [
             <<<<"slice", NONE, NONE, NONE>>, <<"slice", 1, NONE, NONE>>>>, <<<<"slice", NONE, NONE, NONE>>, <<"slice", NONE, NONE, -1>>>>,
             <<<<"slice", 1, NONE, NONE>>, <<"slice", NONE, -1, NONE>>>>, <<<<"all">>, <<"slice", NONE, NONE, 2>>>>,
             <<<<"int", 0>>, <<"none">>>>, <<<<"int", -1>>, <<"slice", 1, NONE, NONE>>>>, <<<<"int", 0>>, <<"int", 1>>>>,
-            <<<<"all">>, <<"none">>>>, <<<<"slice", NONE, NONE, NONE>>, <<"int", 0>>>>, <<<<"slice", NONE, NONE, NONE>>, <<"int", -1>>>>},
+            <<<<"all">>, <<"none">>>>, <<<<"slice", NONE, NONE, NONE>>, <<"int", 0>>>>, <<<<"slice", NONE, NONE, NONE>>, <<"int", -1>>>>, <<<<"slice", NONE, NONE, NONE>>, <<"int", -2>>>>},
   small |-> {<<<<"slice", 1, NONE, NONE>>, <<"none">>>>, <<<<"slice", NONE, NONE, -1>>, <<"none">>>>,
              <<<<"slice", NONE, NONE, NONE>>, <<"slice", 1, NONE, NONE>>>>, <<<<"all">>, <<"slice", NONE, NONE, 2>>>>,
              <<<<"slice", NONE, NONE, NONE>>, <<"slice", NONE, NONE, -1>>>>, <<<<"int", 0>>, <<"none">>>>, <<<<"all">>, <<"none">>>>,
-             <<<<"list", <<1, 0>>>>, <<"none">>>>}]
+             <<<<"list", <<1, 0>>>>, <<"none">>>>, <<<<"slice", NONE, NONE, NONE>>, <<"int", -2>>>>}]
 Asgs == [
   full |-> {<<<<"slice", 1, NONE, NONE>>, <<"none">>, <<"scalar", 99>>>>, <<<<"slice", NONE, NONE, 2>>, <<"none">>, <<"scalar", 98>>>>,
             <<<<"int", 0>>, <<"none">>, <<"scalar", 97>>>>, <<<<"slice", NONE, NONE, NONE>>, <<"slice", NONE, 1, NONE>>, <<"scalar", 96>>>>,
